@@ -2,6 +2,6 @@ SPECIFICATION Spec
 CONSTANT N = 4
 CONSTANT Variant = "emit"
 CONSTANT MaxRunes = 7
-CONSTANT Kinds = {97, 10, 233, 8364}
+CONSTANT Kinds = {97, 10, 233, 8364, 255, 2047, 2048, 55295, 65535}
 INVARIANT Emit
 CHECK_DEADLOCK FALSE
